@@ -33,6 +33,68 @@ def filter_ctor(ctx, toks):
                 out.append(Tok('id', 'mk_' + toks[i].t, ws)); i = j; fire(ctx, 'filter-ctor'); continue
         out.append(toks[i]); i += 1
     return out
+def tuple_worklist(ctx, toks):
+    """the work list of Section::findSections:  std::tuple<Section, size_t> -> SectionCont {_0, _1};  std::list<SectionCont> -> list_SectionCont;
+       std::get<N>(X) -> X._N;  std::make_tuple(a, b) -> mk_SectionCont(a, b);
+       for (const auto &s : EXPR) over a call result -> std::vector<Section> _rng = EXPR; for (const Section &s : _rng)"""
+    out = []; i = 0
+    def skipq(k):
+        while k and out[k - 1].t in ('std', '::'): k -= 1
+        return k
+    while i < len(toks):
+        t = toks[i]
+        if t.t == 'tuple' and seq_at(toks, i + 1, ['<', 'Section', ',', 'size_t', '>']):
+            k = skipq(len(out)); ws = out[k].ws if k < len(out) else t.ws; del out[k:]
+            out.append(Tok('id', 'SectionCont', ws)); i += 6; fire(ctx, 'tuple-type'); continue
+        if t.t == 'list' and toks[i + 1].t == '<':
+            # element type was rewritten already if it is out[..]; here: list < std :: tuple < Section , size_t > >
+            j = i + 2; d = 1
+            while d:
+                if toks[j].t == '<': d += 1
+                elif toks[j].t == '>': d -= 1
+                elif toks[j].t == '>>': d -= 2
+                j += 1
+            k = skipq(len(out)); ws = out[k].ws if k < len(out) else t.ws; del out[k:]
+            out.append(Tok('id', 'list_SectionCont', ws)); i = j; fire(ctx, 'list-type'); continue
+        if t.t == 'get' and toks[i + 1].t == '<' and toks[i + 3].t == '>' and toks[i + 4].t == '(':
+            e = match_close(toks, i + 4)
+            k = skipq(len(out)); ws = out[k].ws if k < len(out) else t.ws; del out[k:]
+            inner = toks[i + 5:e]
+            if inner: inner[0].ws = ws
+            out.extend(inner); out.append(P('.', '')); out.append(Tok('id', '_' + toks[i + 2].t, '')); i = e + 1; fire(ctx, 'tuple-get'); continue
+        if t.t == 'make_tuple' and toks[i + 1].t == '(':
+            k = skipq(len(out)); ws = out[k].ws if k < len(out) else t.ws; del out[k:]
+            out.append(Tok('id', 'mk_SectionCont', ws)); i += 1; fire(ctx, 'make-tuple'); continue
+        out.append(t); i += 1
+    toks = out; out = []; i = 0
+    while i < len(toks):
+        if toks[i].t == 'for' and seq_at(toks, i + 1, ['(', 'const', 'auto', '&']) and toks[i + 6].t == ':':
+            e = match_close(toks, i + 1)
+            rng = toks[i + 7:e]
+            ctx.env['rng_'] = ('vec_Section', False); out.extend(tokenize('%svec_Section rng_ =' % toks[i].ws)); out.extend(rng); out.extend(tokenize('; for (const Section &%s : rng_)' % toks[i + 5].t))
+            i = e + 1; fire(ctx, 'range-for-over-call'); continue
+        out.append(toks[i]); i += 1
+    return out
+SCL = ['Section', 'SectionCont', 'list_SectionCont', 'SectionFilterFn']
+SUNITS = {
+    'addChildrenIfNotMaxDepth': dict(file='src/Section.cpp', locator=r'void\s+addChildrenIfNotMaxDepth\s*\(', classes=SCL, pre_rules=[tuple_worklist], field_types={'SectionCont': {'_0': 'Section'}}, bounded_twin=True,
+        loops={0: '__CPROVER_assigns(_i_s, gh_enq)\n__CPROVER_loop_invariant(_i_s <= rng_.n && gh_enq == _i_s)\n__CPROVER_decreases(rng_.n - _i_s)'}),
+    'section_bfs_step': dict(file='src/Section.cpp', locator=r'std::vector<Section>\s+Section::findSections\s*\(', classes=SCL, pre_rules=[tuple_worklist], field_types={'SectionCont': {'_0': 'Section'}},
+        region=dict(start=r'current\s*=\s*todo\.front\(\)\s*;', end=r'addChildrenIfNotMaxDepth\(current,\s*todo,\s*max_depth\);(?=\s*\}\s*return\s+results)',
+                    params=[('const util::Filter<Section>::type &', 'filter'), ('size_t', 'max_depth'), ('std::list<std::tuple<Section, size_t>> &', 'todo'), ('std::vector<Section> &', 'results'),
+                            ('std::tuple<Section, size_t> &', 'current')])),
+}
+def link_none(ctx, toks):
+    """link() == none  ->  linkIsNone()   (the section has no linked section)"""
+    out = []; i = 0
+    while i < len(toks):
+        if seq_at(toks, i, ['link', '(', ')', '==', 'none']) or seq_at(toks, i, ['link', '(', ')', '==', 'OPT_NONE']):
+            out.extend(tokenize('%slinkIsNone()' % toks[i].ws)); i += 5; fire(ctx, 'link-none'); continue
+        out.append(toks[i]); i += 1
+    return out
+SUNITS['section_inherit_sources'] = dict(file='src/Section.cpp', locator=r'std::vector<Property>\s+Section::inheritedProperties\s*\(', cls='Section', cls_file='include/nix/Section.hpp', classes=['Section', 'Property'],
+    pre_rules=[link_none], inherited_methods=['linkIsNone'],
+    region=dict(start=r'std::vector<Property>\s+own\s*=\s*properties\(\)\s*;', end=r'const\s+std::vector<Property>\s+linked\s*=[^;]*;', params=[], ret='std::vector<Property>', ret_expr='linked'))
 BCL = ['Source', 'Section', 'Block', 'File', 'DataArray', 'Tag', 'MultiTag', 'nstring', 'EntFilter']
 def br(cls, meth, ret, byblock=False):
     f = 'src/%s.cpp' % cls
@@ -49,7 +111,7 @@ BUNITS = {
     'Section_referringMultiTags_b': br('Section', 'referringMultiTags', r'std::vector<nix::MultiTag>', True),
     'Section_referringSources_b': br('Section', 'referringSources', r'std::vector<nix::Source>', True),
 }
-UNITS.update(BUNITS)
+UNITS.update(BUNITS); UNITS.update(SUNITS)
 BEXTRA = 'int gh_q_calls, gh_q_container, gh_parent_calls; query_kind gh_q_kind; EntFilter gh_q_filter; vec_Ent gh_answer;\n'
 EXTRA = ('SourceCont gh_cur; int gh_pops, gh_filter_calls, gh_filter_node, gh_filter_ok, gh_res_pushes, gh_res_node; size_t gh_enq; Source *gh_children; size_t gh_nchildren; int gh_children_of;\n')
 JOBS = [dict(name='source_bfs_step', bodies=['source_bfs_step'], enforce=['source_bfs_step'], replace=[], extra_c=EXTRA, loop_contracts=True,
@@ -58,7 +120,17 @@ JOBS = [dict(name='source_bfs_step', bodies=['source_bfs_step'], enforce=['sourc
              cbmc_flags=['--unwind', '5', '--unwinding-assertions'], expect_kinds=['postcondition', 'unwind'], timeout=300, bounded='at most 3 children, loop unwound completely (twin without loop contract)')]
 for j in JOBS: j['includes'] = ['c20_search.h']
 JOBS += [dict(name=fn, bodies=[fn], enforce=[fn], replace=[], extra_c=BEXTRA, includes=['c20_backref.h'], expect_kinds=['postcondition'], timeout=300) for fn in BUNITS]
-SPEC = dict(contracts=['c20_search.h', 'c20_backref.h'], stubs=[], units=UNITS, jobs=JOBS,
+SEXTRA = ('SectionCont gh_front; int gh_pops, gh_filter_calls, gh_filter_node, gh_filter_ok, gh_res_pushes, gh_res_node, gh_expand_calls, gh_expand_node; size_t gh_expand_depth, gh_enq, gh_nchildren, gh_parent_depth; Section *gh_children; int gh_children_of;\n'
+          'int gh_link_none, gh_prop_calls_self, gh_prop_calls_link, gh_inh_calls;\n')
+JOBS += [dict(name='addChildrenIfNotMaxDepth', bodies=['addChildrenIfNotMaxDepth'], enforce=['addChildrenIfNotMaxDepth'], replace=[], extra_c=SEXTRA, includes=['c20_section.h'], loop_contracts=True,
+              expect_kinds=['postcondition', 'loop_invariant_base', 'loop_invariant_step'], timeout=300),
+         dict(name='addChildrenIfNotMaxDepth[bounded]', bodies=['addChildrenIfNotMaxDepth'], enforce=['addChildrenIfNotMaxDepth'], replace=[], extra_c=SEXTRA, includes=['c20_section.h'], loop_contracts=False,
+              defines=['NIX_NO_LOOP_CONTRACTS', 'C20_BOUNDED=3'], cbmc_flags=['--unwind', '5', '--unwinding-assertions'], expect_kinds=['postcondition', 'unwind'], timeout=300,
+              bounded='at most 3 children, loop unwound completely (twin without loop contract)'),
+         dict(name='section_inherit_sources', bodies=['section_inherit_sources'], enforce=['section_inherit_sources'], replace=[], extra_c=SEXTRA, includes=['c20_section.h'], expect_kinds=['postcondition'], timeout=300),
+         dict(name='section_bfs_step', bodies=['section_bfs_step'], enforce=['section_bfs_step'], replace=['addChildrenIfNotMaxDepth'], extra_c=SEXTRA, includes=['c20_section.h'],
+              expect_kinds=['postcondition', 'precondition'], timeout=300)]
+SPEC = dict(contracts=['c20_search.h', 'c20_backref.h', 'c20_section.h'], stubs=[], units=UNITS, jobs=JOBS,
             trusted_base=['CBMC 6.11.0 (C front end, --dfcc, SAT back end)', 'vlib/cxx2c.py idiom map incl. region units',
                           'ASSUMED: std::queue is first-in first-out; std::vector::push_back appends; the filter is a pure predicate; Source::sources() lists the children in index order',
                           'struct SourceCont {Source entity; size_t depth;} restated in the contract header'],
